@@ -15,6 +15,7 @@ import (
 	"syscall"
 	"time"
 
+	vs "github.com/BlackVectorOps/semantic_firewall/v3/internal/verifsim"
 	"github.com/BlackVectorOps/semantic_firewall/v3/internal/verifsim/simdisk"
 )
 
@@ -139,6 +140,10 @@ func disk(p string) *simdisk.Disk {
 		return nil
 	}
 	if simdisk.InMount(filepath.Clean(p)) {
+		// every file-system call that reaches the simulated disk is a scheduling
+		// point for the store simulations (tasks can be interleaved between any two
+		// file operations of, say, two overlapping saves)
+		vs.YieldPoint("fs " + filepath.Base(p))
 		return d
 	}
 	return nil
@@ -180,6 +185,7 @@ func (f *File) Read(p []byte) (int, error) {
 		return 0, os.ErrInvalid
 	}
 	if f.sim != nil {
+		vs.YieldPoint("file.Read")
 		return f.sim.Read(p)
 	}
 	return f.real.Read(p)
@@ -197,6 +203,7 @@ func (f *File) Write(p []byte) (int, error) {
 		return 0, os.ErrInvalid
 	}
 	if f.sim != nil {
+		vs.YieldPoint("file.Write")
 		return f.sim.Write(p)
 	}
 	return f.real.Write(p)
@@ -223,6 +230,7 @@ func (f *File) Close() error {
 		return os.ErrInvalid
 	}
 	if f.sim != nil {
+		vs.YieldPoint("file.Close")
 		return f.sim.Close()
 	}
 	return f.real.Close()
@@ -233,6 +241,7 @@ func (f *File) Sync() error {
 		return os.ErrInvalid
 	}
 	if f.sim != nil {
+		vs.YieldPoint("file.Sync")
 		return f.sim.Sync()
 	}
 	return f.real.Sync()
